@@ -164,6 +164,18 @@ func TestC19_DecisionTable(t *testing.T) {
 					}
 					return withGeneratedPassword(func() { c19Login(other, "8.8.8.8:1", "x", "GET") })
 				}(), "POST")
+				// whatever a refused (not logged in) request got back as cookies is not a session
+				var bounceCookies []*http.Cookie
+				if !disable {
+					for _, path := range []string{"/add-source", "/save-integration"} {
+						probe := h.Authn(func(w http.ResponseWriter, r *http.Request) { w.WriteHeader(204) })
+						r := httptest.NewRequest("GET", path, nil)
+						r.RemoteAddr = "8.8.8.8:1"
+						w := httptest.NewRecorder()
+						probe.ServeHTTP(w, r)
+						bounceCookies = append(bounceCookies, w.Result().Cookies()...)
+					}
+				}
 				cookieStates := []struct {
 					name    string
 					cookies []*http.Cookie
@@ -176,6 +188,7 @@ func TestC19_DecisionTable(t *testing.T) {
 					{"this-process", goodCookies, true},
 					{"truncated", []*http.Cookie{{Name: "session", Value: goodCookies[0].Value[:len(goodCookies[0].Value)/2]}}, false},
 					{"other-process", otherCookies, false},
+					{"handed-out-with-the-redirect-to-login", bounceCookies, false},
 				}
 				for _, a := range c19Addrs {
 					for _, cs := range cookieStates {
